@@ -27,84 +27,57 @@ theorem ok2_of_wf2 (it : Item) (h : it.wf2 = true) : Item.ok2 it = true := by
     have : id ≠ 0 := by intro h0; subst h0; simp at h1
     simp [Item.ok2, h2, this]
 
-theorem blockOk_of_WF (b : ExtBlock) (h : b.WF = true) : blockOk b = true := by
-  cases b with
-  | oneByte items =>
-    simp only [ExtBlock.WF, Bool.and_eq_true, List.all_eq_true] at h
-    simp only [blockOk, Bool.and_eq_true, List.all_eq_true]
-    exact ⟨fun x hx => ok1_of_wf1 x (h.1 x hx), h.2⟩
-  | twoByte items =>
-    simp only [ExtBlock.WF, Bool.and_eq_true, List.all_eq_true] at h
-    simp only [blockOk, Bool.and_eq_true, List.all_eq_true]
-    exact ⟨fun x hx => ok2_of_wf2 x (h.1 x hx), h.2⟩
-  | legacy p ws => exact h
+/-- a legacy profile is neither of the two RFC 8285 profiles -/
+theorem legacy_profile (p : UInt16) (h : ((p &&& 0xFFF0) != 0x1000) = true) : p ≠ 0x1000 := by
+  intro hp; subst hp; revert h; decide
 
-theorem wireOk_of_WF (w : Wire) (h : w.WF = true) : wireOk w = true := by
+/-- a well-formed block with zero appbits meets the hypotheses of the parse lemmas -/
+theorem blockOk_of_WF (b : ExtBlock) (h : b.WF = true) (ha : b.appbits = false) : blockOk b = true := by
+  cases b with
+  | oneByte items stop =>
+    simp only [ExtBlock.WF, Bool.and_eq_true, List.all_eq_true] at h
+    simp only [blockOk, Bool.and_eq_true, List.all_eq_true]
+    refine ⟨⟨fun x hx => ok1_of_wf1 x (h.1.1 x hx), ?_⟩, h.2⟩
+    cases stop with
+    | none => rfl
+    | some st => exact h.1.2
+  | twoByte a items =>
+    simp only [ExtBlock.WF, Bool.and_eq_true, List.all_eq_true] at h
+    simp only [ExtBlock.appbits, bne_eq_false_iff_eq] at ha
+    simp only [blockOk, Bool.and_eq_true, List.all_eq_true, beq_iff_eq]
+    exact ⟨⟨ha, fun x hx => ok2_of_wf2 x (h.1.2 x hx)⟩, h.2⟩
+  | legacy p ws =>
+    simp only [ExtBlock.WF, Bool.and_eq_true, bne_iff_ne, ne_eq, beq_iff_eq, decide_eq_true_eq] at h
+    obtain ⟨⟨⟨h1, h2⟩, h3⟩, h4⟩ := h
+    simp only [blockOk, Bool.and_eq_true, bne_iff_ne, ne_eq, beq_iff_eq, decide_eq_true_eq]
+    exact ⟨⟨⟨h1, legacy_profile p (by simpa using h2)⟩, h3⟩, h4⟩
+
+theorem wireOk_of_WF (w : Wire) (h : w.WF = true) (ha : w.appbits = false) : wireOk w = true := by
   simp only [Wire.WF, Bool.and_eq_true] at h
   obtain ⟨⟨⟨⟨h1, h2⟩, h3⟩, h4⟩, h5⟩ := h
   simp only [wireOk, Bool.and_eq_true]
   refine ⟨⟨⟨⟨h1, h2⟩, h3⟩, ?_⟩, h5⟩
   cases hx : w.ext with
   | none => rfl
-  | some b => simp only [hx] at h4; exact blockOk_of_WF b h4
-
-theorem wireUnread_of_not_reserved (w : Wire) (h : w.reserved = false) : wireUnread w = 0 := by
-  cases hx : w.ext with
-  | none => simp [wireUnread, hx]
   | some b =>
-    simp only [Wire.reserved, hx] at h
-    cases b with
-    | oneByte items => simpa [wireUnread, hx, blockUnread] using left1_noReserved items _ h
-    | twoByte items => simp [wireUnread, hx, blockUnread]
-    | legacy p ws => simp [wireUnread, hx, blockUnread]
+    simp only [hx] at h4
+    simp only [Wire.appbits, hx] at ha
+    exact blockOk_of_WF b h4 ha
+
+theorem wireUnread_eq (w : Wire) : wireUnread w = w.ignored := by
+  cases hx : w.ext <;> simp [wireUnread, Wire.ignored, hx, blockUnread]
 
 theorem canonH_hdrOf (r : Header) (w : Wire) : canonH (hdrOf r w) = canonH w.toPacket.header := by
   cases hx : w.ext <;> simp [canonH, hdrOf, Wire.toPacket, hx]
 
-/-! ### the reserved-id region -/
-
-theorem left1_pos (items : List Item) (k : Nat) (hok : items.all Item.ok1 = true)
-    (h : items.any Item.isReserved = true) : 0 < left1 items k := by
-  induction items with
-  | nil => simp at h
-  | cons it r ih =>
-    simp only [List.all_cons, Bool.and_eq_true] at hok
-    simp only [List.any_cons, Bool.or_eq_true] at h
-    cases it with
-    | pad =>
-      simp only [left1]
-      exact ih hok.2 (by simpa [Item.isReserved] using h)
-    | elem id d =>
-      simp only [left1]
-      by_cases h15 : id == 15
-      · simp only [h15, ↓reduceIte]
-        have := hok.1
-        simp only [Item.ok1, Bool.and_eq_true, decide_eq_true_eq] at this
-        omega
-      · simp only [h15, Bool.false_eq_true, ↓reduceIte]
-        exact ih hok.2 (by simpa [Item.isReserved, h15] using h)
-
-/-- inside the region something is always left unread, and never more than the block holds -/
-theorem wireUnread_reserved (w : Wire) (hw : w.WF = true) (hr : w.reserved = true) :
-    0 < wireUnread w ∧ wireUnread w ≤ w.extEnd := by
+theorem ignored_le_extEnd (w : Wire) : w.ignored ≤ w.extEnd := by
   cases hx : w.ext with
-  | none => simp [Wire.reserved, hx] at hr
+  | none => simp [Wire.ignored, hx]
   | some b =>
-    have hb : b.WF = true := by
-      simp only [Wire.WF, Bool.and_eq_true, hx] at hw; exact hw.1.2
-    simp only [Wire.reserved, hx] at hr
-    cases b with
-    | oneByte items =>
-      have hok := blockOk_of_WF _ hb
-      simp only [blockOk, Bool.and_eq_true] at hok
-      simp only [ExtBlock.reserved] at hr
-      refine ⟨by simpa [wireUnread, hx, blockUnread] using left1_pos items _ hok.1 hr, ?_⟩
-      have := left1_le items (padTo4 (body1 items).length)
-      simp only [wireUnread, hx, blockUnread, Wire.extEnd, encodeExt, ExtBlock.encode, ExtBlock.body, be16,
-        List.length_append, List.length_cons, List.length_nil, rep]
-      simp only [List.length_replicate]
-      omega
-    | twoByte items => simp [ExtBlock.reserved] at hr
-    | legacy p ws => simp [ExtBlock.reserved] at hr
+    have := blockUnread_le b
+    simp only [blockUnread] at this
+    simp only [Wire.ignored, hx, Wire.extEnd, encodeExt, ExtBlock.encode, be16, List.length_append, List.length_cons,
+      List.length_nil] at this ⊢
+    omega
 
 end Rtp.Proofs.Wire
